@@ -413,7 +413,34 @@ def rule_memo(run):
     memo_rule(run, ['fixed_format_file'])
 
 
+def rule_strread(run):
+    run.rule('STRREAD', 'the converter of character fields returns the columns of the field as they are (only the line end is removed): blanks '
+             'are part of a fixed-width name ("SAND ", "AIR "), and a reader that strips them hands back a shorter name which the '
+             'writer then right-justifies into other columns', floor=1)
+    prog = run.prog
+    v, where = prog.resolve_global('fixed_format_file', 'default_read_str')
+    key = 'fixed_format_file.default_read_str :: removes the newline only'
+    if v is None or not isinstance(v, ast.AST):
+        run.unknown(key, 'definition not found', where='fixed_format_file.py'); return
+    lam = v.args[0] if isinstance(v, ast.Call) and v.args else v
+    body = lam.body if isinstance(lam, ast.Lambda) else None
+    if isinstance(lam, ast.Name):
+        f = prog.mod('fixed_format_file').functions.get(lam.id)
+        rets = [r for r in ast.walk(f.node) if isinstance(r, ast.Return)] if f is not None else []
+        body = rets[0].value if len(rets) == 1 else None
+    if body is None:
+        run.unknown(key, 'converter `%s` not recognised' % norm(v), where='fixed_format_file.py'); return
+    strips = [c for c in ast.walk(body) if isinstance(c, ast.Call) and isinstance(c.func, ast.Attribute) and c.func.attr in ('strip', 'rstrip', 'lstrip')]
+    bad = [c for c in strips if not (c.func.attr == 'rstrip' and len(c.args) == 1 and isinstance(c.args[0], ast.Constant) and
+                                     isinstance(c.args[0].value, str) and set(c.args[0].value) <= set('\r\n'))]
+    if bad:
+        run.violated(key, '`%s` removes blanks as well as the line end: a name such as "SAND " or "AIR " is read back without its trailing blanks '
+                     'and re-written right-justified' % norm(bad[0]), where='fixed_format_file.py', robust=True)
+    else: run.ok(key, norm(body), where='fixed_format_file.py')
+
+
 def check(run):
+    run.guarded('STRREAD', rule_strread)
     run.guarded('MEMO', rule_memo)
     run.guarded('SHARED', rule_shared)
     run.guarded('LAY', rule_lay)
